@@ -132,6 +132,8 @@ BOOL_COMBINATORS = {"Or": "custom_or", "And": "custom_and", "Not": "custom_not"}
 
 
 def rule_optable(ctx: Ctx):
+    from ..shapes import closure_models
+
     rep = ctx.rep
     mod = _module(ctx)
     om = mod.assigns.get("operator_mapping")
@@ -163,11 +165,12 @@ def rule_optable(ctx: Ctx):
     for comb, pyop in (("custom_or", "or"), ("custom_and", "and")):
         fn = ctx.fn(comb)
         a, b = fn.params[0], fn.params[1]
-        dec = next((f for f in mod.all_functions if f.parent is fn), None)
-        if dec is None:
+        cms = closure_models(ctx, fn)
+        if not cms:
             raise AnalysisError(f"anchor lost: closure of {comb}")
+        dec = cms[0].fn
         n = 0
-        for p in ctx.paths(dec, inline=None, exc_edges="none"):
+        for p in cms[0].paths(ctx, inline=None, exc_edges="none"):
             n += 1
             calls = [e for e in p.calls() if isinstance(e.term.func, ast.Name) and e.term.func.id in (a, b)]
             order = [e.term.func.id for e in calls]
@@ -189,17 +192,22 @@ def rule_optable(ctx: Ctx):
                               f"path: {[e.show() for e in p.events if e.kind in ('call', 'branch', 'return')]}")
         rep.floor("C08.optable", f"paths of {comb}.decorated", n, 2)
     fn = ctx.fn("custom_not")
-    dec = next((f for f in mod.all_functions if f.parent is fn), None)
-    for p in ctx.paths(dec, inline=None, exc_edges="none"):
+    cms = closure_models(ctx, fn)
+    if not cms:
+        raise AnalysisError("anchor lost: closure of custom_not")
+    dec = cms[0].fn
+    for p in cms[0].paths(ctx, inline=None, exc_edges="none"):
         v = expand(p.value, p.events) if p.kind == "return" else None
         ok = isinstance(v, ast.UnaryOp) and isinstance(v.op, ast.Not) and show(v.operand) == f"{fn.params[0]}(*args, **kwargs)"
         rep.check(ok, "C08.optable", dec.loc(), "custom_not negates the operand's value at every evaluation", dec.key, f"return {show(v)}")
     bco = ctx.fn("build_custom_operator")
-    cc = next((f for f in mod.all_functions if f.parent is bco), None)
-    dec = next((f for f in mod.all_functions if f.parent is cc), None) if cc else None
-    if dec is None:
+    outer = closure_models(ctx, bco)
+    cc = outer[0].fn if outer else None
+    inner = closure_models(ctx, cc, bindings=outer[0].bindings) if cc is not None else []
+    if not inner:
         raise AnalysisError("anchor lost: comparison combinator closure")
-    for p in ctx.paths(dec, inline=None, exc_edges="none"):
+    dec = inner[0].fn
+    for p in inner[0].paths(ctx, inline=None, exc_edges="none"):
         calls = p.calls()
         order = [show(e.term.func) for e in calls]
         l, r = cc.params[0], cc.params[1]
@@ -304,9 +312,14 @@ def rule_build(ctx: Ctx):
               "any other node kind is rejected with an error instead of being mis-translated", fn.key, f"{len(fall)} fall-through paths")
     unot = [n for n in own_nodes(fn.node) if isinstance(n, ast.Call) and show(n.func) == "isinstance" and show(n.args[1]) == "ast.Not"]
     rep.check(bool(unot), "C08.build", fn.loc(), "only the `not` unary operator is accepted (no -, +, ~)", fn.key, "no isinstance(node.op, ast.Not)")
+    from ..shapes import closure_models
+
     bc = ctx.fn("build_constant")
-    dec = next((f for f in bc.module.all_functions if f.parent is bc), None)
-    for p in ctx.paths(dec, inline=None, exc_edges="none"):
+    cms = closure_models(ctx, bc)
+    if not cms:
+        raise AnalysisError("anchor lost: closure of build_constant")
+    dec = cms[0].fn
+    for p in cms[0].paths(ctx, inline=None, exc_edges="none"):
         rep.check(p.kind == "return" and show(p.value) == bc.params[0], "C08.build", dec.loc(), "a constant closure returns the literal's value", dec.key,
                   f"return {show(p.value)}")
 
@@ -479,10 +492,12 @@ def rule_identity(ctx: Ctx):
     meaning - the polarity (cond vs unless) and, for expressions, the structure of the expression."""
     rep = ctx.rep
     eq = ctx.fn("CallbackSpec.__eq__")
-    src = " ".join(norm_stmt(n) for n in own_nodes(eq.node) if isinstance(n, ast.Return))
-    rep.check("self.expected_value == other.expected_value" in src or "other.expected_value == self.expected_value" in src, "C08.identity", eq.loc(),
+    from ..shapes import eq_implies
+
+    ok_eq, src, _atoms = eq_implies(ctx, eq, ["expected_value"])
+    rep.check(ok_eq, "C08.identity", eq.loc(),
               "a `cond` entry and an `unless` entry naming the same thing are different guards (polarity is part of the spec identity)",
-              eq.key, src)
+              eq.key, f"return {src}")
     add = ctx.fn("CallbacksExecutor.add")
     n = 0
     for p in ctx.paths(add, inline=None, exc_edges="none"):
